@@ -12,6 +12,7 @@ MODES = {
     'two_argument_exception': "class E(Exception):\n    def __init__(self, a, b):\n        Exception.__init__(self, a, b)\nraise E(1, 2)\n",
     'raise_SyntaxError_no_line': "raise SyntaxError('m', ('answer.py', None, None, None))\n",
     'deep_recursion_then_raise': "def f(n):\n    if n == 0:\n        raise ValueError('deep')\n    return f(n - 1)\nf(12)\n",
+    'very_deep_recursion_then_raise': "def f(n):\n    if n == 0:\n        raise ValueError('deep')\n    return f(n - 1)\nf(150)\n",
     'many_inputs_then_error': "for i in range(35):\n    input()\nprint(1 / 0)\n",
     'open_submission_source': "open('answer.py').read()\n",
     'open_submission_for_writing': "open('notes.txt', 'w')\n",
@@ -49,19 +50,20 @@ MODES = {
     'finally_after_raise': "try:\n    1/0\nfinally:\n    x = 1\n    y = 2\n",
     'reraise_after_cleanup': "try:\n    int('x')\nexcept ValueError:\n    z = 0\n    z = 1\n    raise\n",
     'raise_in_function': "def g():\n    return [][1]\ndef h():\n    v = g()\n    return v\nh()\n",
+    'imports_a_fresh_module': "import colorsys\nprint(colorsys.rgb_to_hsv(1, 0, 0))\n",
     'KeyError_subclass': "class MyKeyError(KeyError):\n    pass\nraise MyKeyError('a')\n",
     'unicode_decode': "b'\\xff'.decode('utf8')\n",
     'SyntaxError_other_file': "x = 1\nraise SyntaxError('bad', ('other.py', 7, 1, 'x'))\n",
     'NameError_with_hostile_getattr': "class A:\n    def __getattr__(self, name):\n        raise ValueError('no')\n    def m(self):\n        return undefined_name\nA().m()\n",
 }
 # the class of the student's own failure, by mode: what sandbox.exception and the feedback have to name
-EXPECT = {'two_argument_exception': 'E', 'custom_exception': 'Mine', 'KeyError': 'KeyError', 'ValueError': 'ValueError',
+EXPECT = {'very_deep_recursion_then_raise': 'ValueError', 'two_argument_exception': 'E', 'custom_exception': 'Mine', 'KeyError': 'KeyError', 'ValueError': 'ValueError',
           'ZeroDivision': 'ZeroDivisionError', 'NameError': 'NameError', 'KeyError_subclass': 'MyKeyError',
           'unicode_decode': 'UnicodeDecodeError', 'SyntaxError_other_file': 'SyntaxError',
           'NameError_with_hostile_getattr': 'NameError', 'assertion': 'AssertionError', 'stop_iteration': 'StopIteration',
           'RecursionError': 'RecursionError', 'broken_str': 'Broken', 'setattr_broken': 'Frozen', 'sys_exit': 'SystemExit',
           'raise_in_function': 'IndexError', 'through_library': 'ZeroDivisionError'}
-CONTAINED = [m for m in MODES if m not in ('KeyboardInterrupt', 'GeneratorExit', 'BaseException_subclass', 'normal',
+CONTAINED = [m for m in MODES if m not in ('KeyboardInterrupt', 'GeneratorExit', 'BaseException_subclass', 'normal', 'imports_a_fresh_module',
                                            'stdout_closed', 'own_settrace')]
 ESCAPING = ['KeyboardInterrupt', 'GeneratorExit', 'BaseException_subclass']
 
@@ -87,6 +89,10 @@ def diff(a, b):
     changed = [k for k in a['modules'] if k in b['modules'] and a['modules'][k] is not b['modules'][k]]
     if gone or changed:
         out.append('sys.modules entries removed %r / replaced %r' % (gone[:3], changed[:3]))
+    # modules that only the student's code imported do not stay behind (pedal's own lazily imported parts may)
+    added = [k for k in b['modules'] if k not in a['modules'] and not k.startswith(('pedal', 'encodings', 'coverage'))]
+    if added:
+        out.append('sys.modules entries added %r' % (sorted(added)[:4],))
     return out
 
 
@@ -162,7 +168,7 @@ def one(entry, mode, tracer, prop):
                 elif mode in EXPECT and want != EXPECT[mode]:
                     fails.append(('describes_class', '%s/%s/%s: the student raised %s, sandbox.exception and the feedback '
                                   'name %s' % (entry, mode, tracer, EXPECT[mode], want)))
-                lines_ = {'deep_recursion_then_raise': 3, 'many_inputs_then_error': 3, 'through_library': 3, 'raise_BdbQuit': 3, 'ValueError': 1, 'ZeroDivision': 2, 'NameError': 1, 'KeyError': 2, 'assertion': 1,
+                lines_ = {'deep_recursion_then_raise': 3, 'very_deep_recursion_then_raise': 3, 'many_inputs_then_error': 3, 'through_library': 3, 'raise_BdbQuit': 3, 'ValueError': 1, 'ZeroDivision': 2, 'NameError': 1, 'KeyError': 2, 'assertion': 1,
                           'finally_after_raise': 2, 'reraise_after_cleanup': 2, 'raise_in_function': 2}
                 if entry == 'run' and mode in lines_:
                     line = lines_[mode]
